@@ -24,7 +24,7 @@ RULE = (
     "variables for the request or the answer is a product / needs interpolation"
 )
 SPACE = {
-    "quick": "grid A (X:{C,L}, Y:{C,O}): all registries of <= 3 of 12 pool variables (1-D and non-separable 2-D single-axis metrics) (both list orders for pairs) x 6 array layouts x 6 requests; grid B (X:{C,L,R}, Y:{C,L}, Z:{C,O}): all registries of <= 3 of 11 variables x 3 array positions x 15 ordered requests; derived operations on every registry of grid A that answers",
+    "quick": "grid A (X:{C,L}, Y:{C,O}): all registries of <= 3 of 12 pool variables (1-D and non-separable 2-D single-axis metrics) (both list orders for pairs) x 6 array layouts x 6 requests; grid B (X:{C,L,R}, Y:{C,L}, Z:{C,O}): all registries of <= 3 of 11 variables x 3 array positions x 15 ordered requests; derived operations on every registry of grid A that answers; on grid A, after all queries one variable is overwritten by a twin on the same Grid object and every query is repeated",
     "thorough": "registries of <= 4 variables on both grids, all list orders",
 }
 BOUNDS = {"quick": {"max_vars": 3}, "thorough": {"max_vars": 4}}
@@ -121,19 +121,51 @@ def arr_of(mg, dims, seed):
     return xr.DataArray(a, dims=dims, name="q")
 
 
-def check_get_metric(rec, gname, order, ai, ri, seed, g=None, reg=None):
+TWINS = {"A": {0: 7, 3: 8}}  # pool index -> index of another variable for the same slot
+
+
+def overwritten(gname, order, g=None, reg=None):
+    """after all queries: one registered variable is overwritten by its twin on the *same* Grid object;
+    returns (g, reg, swap) for the new registry or None"""
+    tw = TWINS.get(gname, {})
+    for old, new in tw.items():
+        if old in order and new not in order:
+            c = ctx(gname)
+            if g is None:
+                g, reg = make_grid(gname, order)
+            v = c["vars"][new]
+            g.set_metrics(v.axes, v.name, overwrite=True)
+            reg2 = {k: [c["vars"][new] if x is c["vars"][old] else x for x in vs] for k, vs in reg.items()}
+            return g, reg2, [old, new]
+    return None
+
+
+def check_get_metric(rec, gname, order, ai, ri, seed, g=None, reg=None, swap=None):
     c = ctx(gname)
     mg = c["mg"]
     G = GRIDS[gname]
     dims, req = G["arrays"][ai], G["requests"][ri]
     case = dict(kind="get_metric", grid=gname, order=list(order), ai=ai, ri=ri)
+    if swap:
+        case["after_overwrite"] = swap
     if g is None:
         g, reg = make_grid(gname, order)
+        if swap:
+            # the history: every query first, then the overwrite, then the query under test
+            for a2 in range(len(G["arrays"])):
+                for r2 in range(len(G["requests"])):
+                    try:
+                        with warnings.catch_warnings():
+                            warnings.simplefilter("ignore")
+                            g.get_metric(arr_of(mg, G["arrays"][a2], seed), G["requests"][r2])
+                    except Exception:
+                        pass
+            g, reg, _ = overwritten(gname, order, g, reg)
     axes = (req,) if isinstance(req, str) else tuple(req)
     arr = arr_of(mg, dims, seed)
     kind, cands = M.admissible(mg, reg, [d for d in dims if d != "t"], axes)
     ncand = len(cands) if cands else 0
-    rec.case((gname, tuple(order), ai, ri), kind == "set" and (ncand > 1 or any(w for _, w, _ in cands) or "*" in cands[0][2]),
+    rec.case((gname, tuple(order), ai, ri, tuple(swap or ())), kind == "set" and (ncand > 1 or any(w for _, w, _ in cands) or "*" in cands[0][2]),
              sample=dict(case, dims=list(dims), request=req, registry=[c["vars"][i].name for i in order]))
     rec.counters["oracle:" + kind] += 1
     with warnings.catch_warnings(record=True) as w:
@@ -305,10 +337,21 @@ def run_shard(shard, tier, seed, rec):
                 got = check_get_metric(rec, gname, order, ai, ri, seed, g, reg)
                 if got is not None and gname == "A" and not isinstance(G["requests"][ri], list):
                     check_derived(rec, gname, order, ai, ri, seed, g, reg)
+        # the registry changes under the same Grid object: answers must follow it
+        try:
+            ow = overwritten(gname, order, g, reg)
+        except Exception as e:
+            rec.violation("get_metric", "overwrite-raise:" + exc_sig(e), dict(kind="get_metric", grid=gname, order=list(order), ai=0, ri=0), "registered", str(e)[:200])
+            ow = None
+        if ow is not None:
+            g2, reg2, swap = ow
+            for ai in range(len(G["arrays"])):
+                for ri in range(len(G["requests"])):
+                    check_get_metric(rec, gname, order, ai, ri, seed, g2, reg2, swap=swap)
 
 
 def replay_case(case, seed, rec):
     if case["kind"] == "get_metric":
-        check_get_metric(rec, case["grid"], tuple(case["order"]), case["ai"], case["ri"], seed)
+        check_get_metric(rec, case["grid"], tuple(case["order"]), case["ai"], case["ri"], seed, swap=case.get("after_overwrite"))
     else:
         check_derived(rec, case["grid"], tuple(case["order"]), case["ai"], case["ri"], seed)
